@@ -550,6 +550,9 @@ Proof.
   | solve [unfold add_events, cur_track; pj; hnorm_leaf F]
   | solve [apply exec_note_hnorm; exact F]
   | solve [apply exec_note_n_hnorm; exact F]
+  | solve [change (cur_track (s_set_harmony s false 0 (s_harmony_events s))) with (cur_track s);
+           change (s_timebase (s_set_harmony s false 0 (s_harmony_events s))) with (s_timebase s);
+           match goal with |- context [if ?b then _ else _] => destruct b end; [reflexivity|hnorm_leaf F]]
   | solve [unfold exec_rest, exec_harmony_end, exec_voice; pj; rewrite ?F; lazy beta iota;
            repeat match goal with
                   | |- context [if ?b then _ else _] => destruct b
